@@ -567,12 +567,12 @@ theorem untermOld_witness :
 /-! ## Round 6: the iterator protocol (`__next__` call by call, `pass_back`, `read_docstring`) -/
 
 /-- The stepwise model reads a physical line with the very text of the batch model: `Include.feedI`
-    *is* `PassBack.feedG` with the batch tail (`feedTailI`) plugged in, so every theorem above about
+    *is* `Include.feedG` with the batch tail (`feedTailI`) plugged in, so every theorem above about
     how a logical line is assembled (continuations, comments, literals, the `;` split) speaks about
     the loop the iterator protocol runs. -/
 theorem line_step_shared_with_batch_model (c : Include.Cfg) (resolve : Str → Include.Res) (m : Marks)
     (s : RS) (l : Str) :
-    Include.feedI c resolve m s l = PassBack.feedG [] (Include.feedTailI c resolve m) m s l := rfl
+    Include.feedI c resolve m s l = Include.feedG [] (Include.feedTailI c resolve m) m s l := rfl
 
 /-- Separating statements with `;` - what is queued is served in line order: with the chain at the top
     of `__next__` in the order the source has, a queued statement that is not an include line is the
@@ -758,5 +758,66 @@ theorem read_docstring_without_docs_changes_nothing (c : Include.Cfg) (resolve :
   obtain ⟨rs, pending, lines⟩ := st
   obtain ⟨db, pd, ra, co, rp, rpa, lb⟩ := rs
   simp_all [PassBack.passBack]
+
+
+/-- The reader as the parser uses it and the reader as the theorems above model it are the same
+    reader: for every file (any number of physical lines, continuations, doc blocks, `;` lines,
+    includes), when the batch model `readFromI` - the fold all layout, literal and include theorems
+    are about - gives the list `items`, successive calls of `__next__` (the if/elif chain in the
+    regenerated order, `include()` re-examining the head of the queue on every call, the doc buffer
+    after the queue, the loop entered again only when both are empty) return exactly `items`, one
+    per call, and then StopIteration.  For the tree with the re-testing pops and `include()` in front
+    of both pops (what the translator reads today), under the hypothesis that an item which came out
+    of an included file is left alone when `include()` sees it again (see
+    `queue_call_by_call_is_batch_drain_partial`). -/
+theorem iteration_call_by_call_is_batch_read_partial (c : Include.Cfg) (resolve : Str → Include.Res)
+    (m : Marks) (hg : c.guarded = true) (hi : c.incPrologue = true) (he : c.incEpilogue = true)
+    (hs : ∀ p l, Include.look c.kwLoose resolve p = .splice l →
+            ∀ y ∈ l, Include.look c.kwLoose resolve y = .keep)
+    (lines items : List Str) (h : Include.readFromI c resolve m {} lines = .ok items) :
+    PassBack.Yields c resolve m PassBack.readerOrder { rs := {}, pending := [], lines := lines } items := by
+  have ho : PassBack.readerOrder = PassBack.ord := by decide
+  rw [ho]
+  apply PassBack.after_to_yields
+  have hn : PassBack.next c resolve m PassBack.ord { rs := {}, pending := [], lines := lines }
+      = PassBack.readOn c resolve m {} lines := by
+    simp [PassBack.next, PassBack.serve, PassBack.ord, PassBack.popPending, PassBack.resetLocals]
+  rw [hn]
+  exact PassBack.readOn_yields_batch c resolve m hg hi he hs lines {} items h
+
+/-- the hypotheses about the tree hold for the tree the translator read -/
+theorem iteration_theorem_applies_to_this_tree_partial
+    (h : Generated.C02.popsGuarded = true) :
+    Include.readerCfg.guarded = true ∧ Include.readerCfg.incPrologue = true ∧
+    Include.readerCfg.incEpilogue = true := by
+  refine ⟨h, ?_, ?_⟩ <;> first | rfl | decide
+
+
+/-- **Layout invariance for the consumer FORD really has.**  For every file: when the batch model
+    gives `items`, a consumer that takes the items one by one and looks ahead - takes an item and
+    hands it back with `pass_back` - before any items that are not doc lines, in any pattern
+    (`read_docstring` after every statement is one such pattern), receives exactly `items`, in
+    order, each once.  So everything proved above about the batch list - `&` continuations, `;`,
+    comments, blank lines, literals, includes - holds for what the parser sees.  Same hypotheses as
+    `iteration_call_by_call_is_batch_read_partial`, plus: a statement that is looked at is not an
+    include line `include()` would expand on second sight.  The proof carries the invariant "every
+    buffered doc line starts with `!` + docmark" through the loop body (`Lemmas/PassBack.lean:
+    feedFront_docs` …), from which an item that is not a doc line was popped from the statement queue. -/
+theorem look_ahead_consumer_receives_batch_list_partial (c : Include.Cfg) (resolve : Str → Include.Res)
+    (m : Marks) (hg : c.guarded = true) (hi : c.incPrologue = true) (he : c.incEpilogue = true)
+    (hs : ∀ p l, Include.look c.kwLoose resolve p = .splice l →
+            ∀ y ∈ l, Include.look c.kwLoose resolve y = .keep)
+    (lines items : List Str) (h : Include.readFromI c resolve m {} lines = .ok items)
+    (hk : ∀ x ∈ items, startsWith x ('!' :: m.doc) = false → Include.look c.kwLoose resolve x = .keep)
+    (peeks : List Bool) (hl : peeks.length = items.length)
+    (hz : ∀ p ∈ peeks.zip items, p.1 = true → startsWith p.2 ('!' :: m.doc) = false) :
+    PassBack.consume c resolve m PassBack.readerOrder PassBack.readerFront peeks
+      { rs := {}, pending := [], lines := lines } = .ok items := by
+  have ho : PassBack.readerOrder = PassBack.ord := by decide
+  have hf : PassBack.readerFront = true := by decide
+  have hy := iteration_call_by_call_is_batch_read_partial c resolve m hg hi he hs lines items h
+  rw [ho] at hy ⊢
+  rw [hf]
+  exact PassBack.consume_of_yields c resolve m _ items hy (by intro d hd; simp at hd) hk peeks hl hz
 
 end Ford.C02
